@@ -283,10 +283,51 @@ class RawLog:
 
         pathlib.Path.open = p_open
         pathlib.Path.mkdir = p_mkdir
+        # removals and renames (shutil.rmtree works relative to directory descriptors)
+        self._os = {n: getattr(os, n) for n in ('unlink', 'remove', 'rmdir', 'rename', 'replace')}
+
+        def full(path, dir_fd):
+            path = os.fspath(path)
+            if isinstance(path, bytes):
+                path = os.fsdecode(path)
+            if dir_fd is not None and not os.path.isabs(path):
+                path = os.path.join(os.readlink(f'/proc/self/fd/{dir_fd}'), path)
+            return os.path.abspath(path)
+
+        def mk_rm(name, tag):
+            orig = self._os[name]
+
+            def f(path, *a, dir_fd=None, **kw):
+                fp = full(path, dir_fd)
+                r = orig(path, *a, dir_fd=dir_fd, **kw) if dir_fd is not None else orig(path, *a, **kw)
+                if fp.startswith(rl.root):
+                    rl.log.append((tag, fp))
+                return r
+            return f
+
+        def mk_mv(name):
+            orig = self._os[name]
+
+            def f(src, dst, *a, src_dir_fd=None, dst_dir_fd=None, **kw):
+                fs, fd = full(src, src_dir_fd), full(dst, dst_dir_fd)
+                extra = {}
+                if src_dir_fd is not None:
+                    extra['src_dir_fd'] = src_dir_fd
+                if dst_dir_fd is not None:
+                    extra['dst_dir_fd'] = dst_dir_fd
+                r = orig(src, dst, *a, **extra, **kw)
+                if fs.startswith(rl.root) or fd.startswith(rl.root):
+                    rl.log.append(('rename', fs, fd))
+                return r
+            return f
+        os.unlink, os.remove, os.rmdir = mk_rm('unlink', 'unlink'), mk_rm('remove', 'unlink'), mk_rm('rmdir', 'rmdir')
+        os.rename, os.replace = mk_mv('rename'), mk_mv('replace')
         return self
 
     def __exit__(self, *exc):
         pathlib.Path.open, pathlib.Path.mkdir = self._open, self._mkdir
+        for n, f in self._os.items():
+            setattr(os, n, f)
         return False
 
 
@@ -320,7 +361,10 @@ def relog(log: Sequence, root: str) -> list:
     out = []
     root = os.path.realpath(root)
     for op in log:
-        out.append((op[0], os.path.relpath(op[1], root)) + tuple(op[2:]))
+        if op[0] == 'rename':
+            out.append((op[0], os.path.relpath(op[1], root), os.path.relpath(op[2], root)))
+        else:
+            out.append((op[0], os.path.relpath(op[1], root)) + tuple(op[2:]))
     return out
 
 
@@ -339,6 +383,23 @@ def crash_states(log: Sequence) -> list:
             for c in cuts:
                 if 0 < c < len(data):
                     states.append((f'torn-{i}@{c}/{len(data)}', raw[:i] + [('write', raw[i][1], data[:c])]))
+    # the order in which a recursive delete removes the files of one directory is decided by the
+    # file system (directory iteration order), not by the code: within a run of consecutive unlinks
+    # in one directory every subset may be what a crash leaves removed
+    i = 0
+    while i < len(raw):
+        j = i
+        while j < len(raw) and raw[j][0] == 'unlink' and os.path.dirname(raw[j][1]) == os.path.dirname(raw[i][1]):
+            j += 1
+        if j - i >= 2 and j - i <= 4:
+            import itertools
+            run = raw[i:j]
+            for r in range(1, len(run)):
+                for sub in itertools.combinations(run, r):
+                    if list(sub) == run[:r]:
+                        continue          # already a prefix state
+                    states.append((f'unlink-order-{i}:' + '+'.join(os.path.basename(o[1]) for o in sub), raw[:i] + list(sub)))
+        i = max(j, i + 1)
     # flushed variants: position in the full log at each pywrite; all bytes handed so far written
     handed: dict = {}
     structural = []
@@ -351,8 +412,12 @@ def crash_states(log: Sequence) -> list:
                 ops = [o for o in ops if not (o[0] == 'write' and o[1] == path)]
                 ops.append(('write', path, data))
             states.append((f'flushed-at-pywrite-{j}', ops))
-        elif op[0] in ('mkdir', 'open', 'close'):
+        elif op[0] in ('mkdir', 'open', 'close', 'unlink', 'rmdir', 'rename'):
             structural.append(op)
+            if op[0] == 'unlink':
+                handed.pop(op[1], None)
+            if op[0] == 'rename' and op[1] in handed:
+                handed[op[2]] = handed.pop(op[1])
             if op[0] == 'open' and op[2] == 'trunc':
                 handed[op[1]] = b''
     return states
@@ -376,6 +441,15 @@ def materialise(ops: Sequence, dest: str, template: Optional[str] = None):
                 f.write(op[2])
         elif op[0] == 'close':
             pass
+        elif op[0] == 'unlink':
+            if os.path.lexists(p):
+                os.unlink(p)
+        elif op[0] == 'rmdir':
+            if os.path.isdir(p):
+                os.rmdir(p)
+        elif op[0] == 'rename':
+            if os.path.lexists(p):
+                os.replace(p, os.path.join(dest, op[2]))
 
 
 def dir_state(root: str) -> dict:
